@@ -240,7 +240,7 @@ def c03(res, scenario) -> list[Violation]:
         if not res.outcome.startswith("raised"):
             out.append(Violation("c03:not-propagated",
                                  f"control-loop exception not propagated: outcome {res.outcome}", case))
-        elif not any(n in res.outcome for n in ("InjectedFault", "WeirdFault", "KeyboardInterrupt")):
+        elif not any(n in res.outcome for n in ("InjectedFault", "WeirdFault", "InjectedOSError", "KeyboardInterrupt")):
             # ... and it is the user's exception that reaches the caller (the one a later save callback raises in
             # the final save is a user exception as well), not one a handler on the way produced in its place
             out.append(Violation("c03:replaced:" + res.outcome.split(":")[1],
@@ -660,7 +660,7 @@ def c08(res, scenario) -> list[Violation]:
     ev, tm = res.events, res.times
     # (a)/(b) launch ends only for a cause; framework bookkeeping never kills a thread
     for th, kind, obj, val in ev:
-        if kind == "exit" and th in BG and val not in (None, "InjectedFault", "WeirdFault"):
+        if kind == "exit" and th in BG and val not in (None, "InjectedFault", "WeirdFault", "InjectedOSError"):
             out.append(Violation(f"c08:framework-exception:{val}",
                                  f"the {th} thread died of {val}, raised by framework bookkeeping "
                                  f"(no user callback raised)", case))
@@ -669,6 +669,7 @@ def c08(res, scenario) -> list[Violation]:
     # the run still ended for a cause)
     user_fault = any(e[1] in ("cb_raise", "savecond_raise") for e in ev)
     if res.outcome.startswith("raised") and "InjectedFault" not in res.outcome and "WeirdFault" not in res.outcome and \
+            "InjectedOSError" not in res.outcome and \
             "KeyboardInterrupt" not in res.outcome and not user_fault:
         out.append(Violation(f"c08:launch-raised:{res.outcome.split(':')[1]}",
                              f"launch() raised {res.outcome} without any user fault", case))
